@@ -577,15 +577,26 @@ def case_assembly(case):
     out["assemble"] = {"payload": payload, "x": x}
     if "solver" in out:
         ptP = dict(pt)
+        # the documented naming of the propagator symbols: "__P__<row>__<column>", row by row over the non-zero entries, a name that is
+        # already taken extended by "_" until it is unique (F17)
+        pname, taken = {}, set()
         for i in range(n):
             for j in range(n):
-                ptP[sympy.Symbol("__P__%s__%s" % (x[i], x[j]))] = Pv[i][j]
+                if pnz[i][j]:
+                    nm = "__P__%s__%s" % (x[i], x[j])
+                    while nm in taken:
+                        nm += "_"
+                    taken.add(nm)
+                    pname[(i, j)] = nm
+        for i in range(n):
+            for j in range(n):
+                ptP[sympy.Symbol(pname.get((i, j), "__P__%s__%s" % (x[i], x[j])))] = Pv[i][j]
         vals_real = []
         for v in x:
             e = refsol.parse(out["solver"]["update_expressions"][v], marker)
             vals_real.append((lambda f: None if f is None else numeval.fs(f))(numeval.val(e, ptP)))
         out["assemble"]["real_values"] = vals_real
-        out["assemble"]["real_pnz_from_keys"] = [["__P__%s__%s" % (x[i], x[j]) in out["solver"]["propagators"] for j in range(n)] for i in range(n)]
+        out["assemble"]["real_pnz_from_keys"] = [[pname.get((i, j), "__P__%s__%s" % (x[i], x[j])) in out["solver"]["propagators"] for j in range(n)] for i in range(n)]
     return out
 
 
